@@ -11,8 +11,25 @@ EXPLANATION = (
     "sorted (node, sibling) pair, a known parent is compared (mismatch raises), an unknown parent is stored AND "
     "enqueued one level up; the only `continue` is the root; levels are visited bottom-up; (e) index algebra of "
     "parent/lchild/rchild/sibling/needed_for; (f) HashTree pads with empty_leaf_hash(i) and builds rows with "
-    "pair_hash(last[2i], last[2i+1]); leaf arguments are merged into the same checked map as hashes. "
-    "Undecided: hash collision freedom; value-level equality of computed roots.")
+    "pair_hash(last[2i], last[2i+1]); leaf arguments are merged into the same checked map as hashes; (g) writer "
+    "and verifier agree on first_leaf_num and row halving, add rows only on the edge where the newest row has more "
+    "than one node and flatten only on the edge where it is the single root (decided on the edges taken, so a "
+    "negated loop test is seen); needed_for returns the chain it collected; (h) an offered map is replaced by a "
+    "default only on the edge where it is absent, the map validated in the region derives from the offered "
+    "hashes, and BadHashError / NotEnoughHashesError are never raised on the edge where the compared hashes are "
+    "equal / the hash is present; (i) [C35 only, not adopted by C02] reads self[i] with i taken from the offer "
+    "can raise IndexError after earlier stores of the same call, so the rollback handler must cover IndexError "
+    "(or the indices are range-checked on every path to the read). "
+    "Undecided: hash collision freedom; value-level equality of computed roots; that num_levels / the size of "
+    "hashes_to_check equals the depth of the deepest node (an off-by-one there is an IndexError/NameError crash "
+    "that rule (i) only turns into a rolled-back rejection when it is an IndexError); the bounds checks inside "
+    "parent/lchild/rchild/needed_for (they guard API misuse, the walk itself stops at the root by rule (e)); "
+    "exceptions other than IndexError that escape the region without rollback (AssertionError of the "
+    "parent_level assert, TypeError for non-integer keys); that a conflict between the `hashes` and `leaves` "
+    "arguments is reported (the surviving value is still validated); the tag/argument order inside "
+    "empty_leaf_hash (format compatibility, not soundness); include_leaf handling of needed_hashes; that the "
+    "bottom row is padded to roundup_pow2(n) entries before the rows are built (without it trees with a "
+    "non-power-of-two leaf count are too short and every use raises IndexError).")
 TECHNIQUE = "static analysis: CFG must-follow / must-precede rules (rollback pairing R10), exception-class coverage, normal-form agreement"
 
 MOD = "hashtree"
@@ -238,7 +255,9 @@ def run(ctx: Context, P: str = "C35"):
             def loop_or_exit(n):
                 return n.kind in ("exit",) or (n.kind == "stmt" and isinstance(n.ast, ast.Pass) and _is_while_head(cfg, n)) \
                     or n.kind == "iter"
-            after = find_path_from_to_avoiding(cfg, lambda n, _s=s: n is _s, enq, ends=loop_or_exit)
+            # a path into the rollback handler is a rejection (everything journaled is undone), not an omission
+            after = find_path_from_to_avoiding(cfg, lambda n, _s=s: n is _s, lambda n, _e=enq: n.id in hreach or _e(n),
+                                               ends=loop_or_exit)
             if after:
                 ixnames = names_in(_store_index(s))
                 before = find_path_avoiding(cfg, lambda n, _s=s: n is _s, gate_node=enq,
@@ -374,6 +393,12 @@ def run(ctx: Context, P: str = "C35"):
             inits = [n for n in g.stmt_nodes() if cur in node_stores(n) and n is not steps[0]]
             ok = ok and len(inits) == 1 and attr_path(assign_value(inits[0], cur)) == first_positional_params(f)[0]
         r.require(ok, f, f.loc(), "needed_for does not walk sibling(here) / here=parent(here) from the node until the root")
+        if ok:
+            # what is handed back is the collection the chain was appended to
+            acc = attr_path(calls_at(apps[0], "append")[0].func.value)
+            for rn_ in g.find(is_return):
+                r.require(rn_.ast.value is not None and acc is not None and acc in depends_on(f, rn_.ast.value), f,
+                          f.loc(rn_.ast), "needed_for does not return the sibling chain %s it collected" % acc)
 
     # -- (f) HashTree construction and leaf merging -----------------------
     with ctx.rule(P + ".6", "R1", "HashTree.__init__ pads with empty_leaf_hash(i) and pairs (2i, 2i+1); set_hashes "
@@ -451,6 +476,45 @@ def run(ctx: Context, P: str = "C35"):
                           bool(rev) and all(not find_path_avoiding(g, lambda x, _n=fn_: x is _n, gate_node=has_call("reverse")) for fn_ in flat),
                           sorted(FlowNorm(f, rename=dict(ren, **{first_positional_params(f)[0]: "ARG"})).edge_fact(t, ("T", t.ast)) for t in loop), halves)
             r.require(shapes[cn][1] and shapes[cn][2], f, f.loc(), "%s is not flattened root-first (rows.reverse() then sum(rows, []))" % cn)
+            # rows are added while the newest row has more than one node, and the list is flattened only once
+            # the newest row is the single root: decided on the edges actually taken (so a negated or inverted
+            # loop test is seen), not on the text of the test
+            if rows_v and flat:
+                fnr = FlowNorm(f, rename=dict(ren, **{first_positional_params(f)[0]: "ARG"}))
+                top = norm_src("len(ROWS[-1])")
+
+                def _row_fact(t, lab, want, _fnr=fnr, _top=top):
+                    fct = _fnr.edge_fact(t, lab)
+                    if not fct:
+                        return False
+                    if want == "more":
+                        return (fct[0] == "!=" and {fct[1], fct[2]} == {"1", _top}) or \
+                               (fct[0] == "<" and fct[1] == "1" and fct[2] == _top) or \
+                               (fct[0] == "<=" and fct[1] == "2" and fct[2] == _top)
+                    return (fct[0] == "==" and {fct[1], fct[2]} == {"1", _top}) or \
+                           (fct[0] == "<=" and fct[1] == _top and fct[2] == "1") or \
+                           (fct[0] == "<" and fct[1] == _top and fct[2] == "2")
+
+                def _grows(n, _v=rows_v):
+                    if n.kind != "stmt":
+                        return False
+                    if isinstance(n.ast, ast.AugAssign) and attr_path(n.ast.target) == _v:
+                        return True
+                    if isinstance(n.ast, ast.Assign) and _v in node_stores(n) and _v in names_in(n.ast.value):
+                        return True
+                    return any(call_tail(c) in ("append", "extend", "insert") and isinstance(c.func, ast.Attribute)
+                               and attr_path(c.func.value) == _v for c in node_calls(n))
+                grow = [n for n in g.stmt_nodes() if _grows(n)]
+                if not grow:
+                    raise AnchorVanished("%s.__init__: no statement adding a row to %s" % (cn, rows_v))
+                for (t, w) in find_path_avoiding(g, _grows, gate_edge=lambda t, lab: _infeasible(lab) or _row_fact(t, lab, "more"),
+                                                 kill=_grows):
+                    r.violation(f, f.loc(t.ast), "%s.__init__ adds a parent row although the newest row is not known to hold "
+                                "more than one node (path: %s): the tree shape no longer ends in a single root" % (cn, w.brief()), w)
+                for (t, w) in find_path_avoiding(g, lambda n, _fl=flat: n in _fl, gate_edge=lambda t, lab: _infeasible(lab) or _row_fact(t, lab, "one"),
+                                                 kill=_grows):
+                    r.violation(f, f.loc(t.ast), "%s.__init__ flattens the rows although the newest row is not known to be the "
+                                "single root (path: %s): upper levels of the tree are missing" % (cn, w.brief()), w)
         a, b = shapes["HashTree"], shapes["IncompleteHashTree"]
         fa = a[0]
         fb = b[0].replace("len((ARG*[None]))", "NLEAVES")
@@ -458,7 +522,7 @@ def run(ctx: Context, P: str = "C35"):
             (re.match(r"^\(-1 \+ roundup_pow2\(.+\)\)$", fa) and re.match(r"^\(-1 \+ roundup_pow2\(.+\)\)$", fb))
         hi = idx.func(MOD + ":HashTree.__init__")
         r.require(bool(ok_first), hi, hi.loc(), "writer and verifier disagree on first_leaf_num: %s vs %s" % (fa, fb))
-        r.require(a[3] == b[3] and bool(a[3]), hi, hi.loc(), "writer and verifier build rows under different loop conditions: %s vs %s" % (a[3], b[3]))
+        r.require(bool(a[3]) and bool(b[3]), hi, hi.loc(), "writer or verifier no longer builds rows under a condition on the newest row: %s vs %s" % (a[3], b[3]))
         r.require(a[4] == b[4] and bool(a[4]), hi, hi.loc(), "writer and verifier halve rows differently: %s vs %s" % (a[4], b[4]))
         for cn in ("HashTree", "IncompleteHashTree"):
             f = idx.func(MOD + ":%s.needed_hashes" % cn)
@@ -480,6 +544,156 @@ def run(ctx: Context, P: str = "C35"):
                        (o == "false" and l == "self[%s]" % attr_path(gen.target)):
                         okc = attr_path(cmp_.elt) == attr_path(gen.target)
         r.require(okc, f, f.loc(), "IncompleteHashTree.needed_hashes does not return exactly the still-unknown nodes")
+
+    # -- (h) what was offered is what is checked; agreement is never a reason to reject ----
+    with ctx.rule(P + ".8", "R1", "set_hashes: an offered map is replaced by a default only when it is absent, the map "
+                  "validated in the region derives from the offered hashes, and BadHashError / NotEnoughHashesError "
+                  "are never raised on the edge where the two hashes agree / the hash is present", expected=5) as r:
+        ps = first_positional_params(fn)
+        for p_ in ps:
+            for n in cfg.stmt_nodes():
+                if n.id in hreach or p_ not in node_stores(n):
+                    continue
+                val = assign_value(n, p_)
+                if val is not None and p_ in names_in(val):
+                    continue        # a transformation of the offered map (copy, filter): not decided here
+                r.site(fn, n.ast, "default for %s" % p_)
+
+                def absent(t, lab, _p=p_):
+                    fct = fnorm.edge_fact(t, lab)
+                    return bool(fct) and ((fct[0] == "is" and {fct[1], fct[2]} == {"None", _p})
+                                          or (fct[0] == "false" and fct[1] == _p))
+                for (t, w) in find_path_avoiding(cfg, lambda x, _n=n: x is _n, gate_edge=absent):
+                    r.violation(fn, fn.loc(n.ast), "the offered map %s is discarded (re-bound) on a path where it was not "
+                                "absent (path: %s): genuine hashes handed in are never looked at" % (p_, w.brief()), w)
+        # the loop that fills the tree iterates a map derived from the offered hashes
+        ixn = set()
+        for s in region_stores:
+            ixn |= names_in(_store_index(s))
+        mains = [n for n in cfg.nodes if n.kind == "iter" and _in_try_body(fn, n.ast) and n.id not in hreach
+                 and any(isinstance(_store_index(s), ast.Name) and _store_index(s).id in node_stores(n) for s in region_stores)]
+        if not mains:
+            raise AnchorVanished("set_hashes: the loop that fills the tree from the offered map was not found")
+        for mn in mains:
+            r.site(fn, mn.ast, "fill loop")
+            srcs = set()
+            for nm_ in names_in(mn.ast.iter):
+                srcs |= names_in(fnorm.resolve(mn, ast.Name(id=nm_, ctx=ast.Load())))
+                srcs.add(nm_)
+            r.require(bool(ps) and ps[0] in srcs, fn, fn.loc(mn.ast), "the map validated in the transactional region (%s) does not "
+                      "derive from the offered `%s` argument" % (src(fn, mn.ast.iter), ps[0] if ps else "?"))
+        # polarity of explicit rejections
+        for rn_ in cfg.stmt_nodes():
+            if not is_raise(rn_) or rn_.id in hreach or rn_.ast.exc is None:
+                continue
+            nm = C._exc_name(rn_.ast.exc)
+            if nm not in ("BadHashError", "NotEnoughHashesError"):
+                continue
+            r.site(fn, rn_.ast, "raise %s" % nm)
+            for (t, lab) in _guard_edges(cfg, rn_):
+                fct = fnorm.edge_fact(t, lab) if t.kind == "test" else None
+                if not fct:
+                    continue
+                elem = any(isinstance(x, str) and "[" in x for x in fct[1:])
+                if nm == "BadHashError":
+                    r.require(not (fct[0] == "==" and elem), fn, fn.loc(rn_.ast), "BadHashError is raised on the edge where %s "
+                              "and %s are EQUAL: an offer that agrees with what is already known is rejected" % (fct[1], fct[2]))
+                else:
+                    r.require(not (elem and (fct[0] == "truth" or (fct[0] == "is not" and "None" in fct[1:]))), fn,
+                              fn.loc(rn_.ast), "NotEnoughHashesError is raised on the edge where %s is PRESENT" %
+                              (fct[1] if fct[1] != "None" else fct[2]))
+
+    # -- (i) a rejection by IndexError is rolled back too ------------------------------------
+    # Adopters of these rules (C02: the immutable downloader range-checks share-hash numbers and chooses
+    # block/ciphertext hash numbers itself) do not hand in foreign indices; the hash-tree property itself
+    # ("whatever auxiliary hashes an adversary supplies") does.
+    if P == "C35":
+        with ctx.rule(P + ".9", "R10", "set_hashes: indices taken from the offered map are read with self[i] after earlier "
+                      "stores of the same call; an out-of-range index raises IndexError there, so the rollback handler must "
+                      "cover IndexError (or every index is range-checked before the first store)", expected=1) as r:
+            defs_ = def_exprs(fn)
+            offered = set(first_positional_params(fn))
+            risky = []
+            for n in cfg.nodes:
+                if n.kind not in ("stmt", "test") or n.id in hreach or not _in_try_body(fn, n.ast):
+                    continue
+                for x in own_nodes(n.ast):
+                    if isinstance(x, ast.Subscript) and isinstance(x.ctx, ast.Load) and attr_path(x.value) == "self":
+                        bound = [it for it in cfg.nodes if it.kind == "iter" and (names_in(x.slice) & node_stores(it))
+                                 and (offered & depends_on(fn, it.ast.iter, defs=defs_))]
+                        if bound and any(_path_exists(cfg, s, n) for s in region_stores):
+                            risky.append((n, x))
+            if not risky:
+                raise AnchorVanished("set_hashes: no read self[i] with i taken from the offered map inside the region")
+            hn9 = set(C._handler_names(handler.ast.type) or ["BaseException"])
+            covers = bool(hn9 & {"IndexError", "LookupError", "Exception", "BaseException"})
+            for (n, x) in risky:
+                r.site(fn, n.ast, "read %s" % src(fn, x))
+            if not covers and not _range_checked(cfg, fnorm, hreach, [n for (n, _x) in risky]):
+                n, x = risky[0]
+                r.violation(fn, fn.loc(n.ast), "%s is read with an index taken from the offered map after earlier stores of the same "
+                            "call; an index outside the tree raises IndexError, which the rollback handler (catches %s) lets "
+                            "through: the hashes stored so far stay in the tree unvalidated, and a later offer that repeats one "
+                            "of them is accepted without any check against the root" % (src(fn, x), sorted(hn9)))
+
+
+def _infeasible(lab) -> bool:
+    """An edge that is never taken: the false edge of a constant-true test (`while True`) or vice versa."""
+    return isinstance(lab, tuple) and len(lab) == 2 and isinstance(lab[1], ast.Constant) and \
+        bool(lab[1].value) != (lab[0] == "T")
+
+
+def _guard_edges(cfg, n):
+    """The (node, label) edges under which statement n is executed: walk back over straight-line statements to the
+    nearest tests (or loop heads / entry, which are returned as they are)."""
+    out, seen, work = [], set(), [n]
+    while work:
+        x = work.pop()
+        if x.id in seen:
+            continue
+        seen.add(x.id)
+        for (s, lab) in cfg.pred[x.id]:
+            if lab == "exc":
+                continue
+            sn = cfg.nodes[s]
+            if sn.kind == "stmt":
+                work.append(sn)
+            else:
+                out.append((sn, lab))
+    return out
+
+
+def _path_exists(cfg, a, b) -> bool:
+    """Can control go from node a to node b along non-exceptional edges?"""
+    visited, _p = explore(cfg, 0, lambda n, lab, nxt, st: None if lab == "exc" else 0, start=a)
+    return any(i == b.id for (i, _s) in visited if i != a.id) or a is b and any(d == a.id for (i, _s) in visited for (d, _l) in cfg.succ[i])
+
+
+def _range_checked(cfg, fnorm, hreach, reads) -> bool:
+    """Every read in `reads` is preceded on all paths by a test that bounds something by len(self) and whose
+    failing edge raises (the offered indices are range-checked before they are used)."""
+    gates = set()
+    nrm = N(cfg.fn)
+    for t in cfg.find(lambda n: n.kind == "test"):
+        if t.id in hreach:
+            continue
+        for (d, lab) in cfg.succ[t.id]:
+            if not isinstance(lab, tuple):
+                continue
+            facts = [fnorm.edge_fact(t, lab)]
+            if lab[0] == "T" and isinstance(t.ast, ast.Compare) and len(t.ast.ops) > 1:
+                # a chained comparison a <= i < b: every link holds on the true edge
+                terms = [t.ast.left] + list(t.ast.comparators)
+                facts = [nrm.cmp(ast.Compare(left=terms[k], ops=[t.ast.ops[k]], comparators=[terms[k + 1]]), True)
+                         for k in range(len(t.ast.ops))]
+            for fct in facts:
+                if fct and fct[0] in ("<", "<=") and isinstance(fct[2], str) and "len(self)" in fct[2]:
+                    for (d2, lab2) in cfg.succ[t.id]:
+                        if isinstance(lab2, tuple) and lab2[0] != lab[0] and _first_stmt(cfg, cfg.nodes[d2]) is not None:
+                            gates.add(t.id)
+    if not gates:
+        return False
+    return all(not find_path_avoiding(cfg, lambda n, _r=rd: n is _r, gate_node=lambda m: m.id in gates) for rd in reads)
 
 
 def _subscript_store(n):
